@@ -142,6 +142,54 @@ def genAddProcV1 (allP : List String) : Except String (List String) :=
   | .ok (_, _, w) => .ok w.log
   | .error e => .error e
 
+/-! ### (c'') a v1 handle under a parent handle: the regenerated `(*V1).New` -/
+
+def v1ext (name : String) (args : List Val) (env : Env) (w : DW) : Except String (Val × DW) :=
+  match name, args with
+  | "filepath.Join", [.str a, .str b] => .ok (.str (a ++ "/" ++ b), w)
+  | "EnsureDirExists", [.str p] =>
+    if w.dirs.contains p then .ok (.str "EEXIST", { w with log := w.log ++ ["mkdir-eexist " ++ p] })
+    else .ok (.nil, { w with dirs := w.dirs ++ [p], log := w.log ++ ["mkdir " ++ p] })
+  | "initCpuset", [.str p] => .ok (.nil, { w with log := w.log ++ ["initcpuset " ++ p] })
+  | _, _ => dext name args env w
+
+def v1cfg : Cfg DW := { ext := v1ext, glob := dcfg.glob, fieldRefs := true }
+
+def pathsOf : Option Val → List String
+  | some (.list l) => l.filterMap (fun v => match v with
+      | .strct fs => (match recGet fs "path" with | some (.str p) => some p | _ => none)
+      | _ => none)
+  | _ => []
+
+/-- `parent.New(name)` of the regenerated v1 code (its deferred clean-up, which runs on error paths only, left
+out) for a parent that has the given controllers, on a set of existing directories:
+(directories the handle will use, directories it counts as created by it, its `existing` flag, directories made) -/
+def genNewSubV1 (ctrls : List String) (name : String) (dirs : List String) :
+    Except String (List String × List String × Bool × List String) :=
+  let ctl (c : String) : Val := if ctrls.contains c then .strct [("path", .str ("/cg/" ++ c ++ "/par"))] else .nil
+  let c : Val := .strct [("prefix", .str "par"), ("cpu", ctl "cpu"), ("cpuset", ctl "cpuset"), ("cpuacct", ctl "cpuacct"), ("memory", ctl "memory"), ("pids", ctl "pids")]
+  let body := Gen.C20.newSubV1.body.filter (fun s => match s with | .other "defer" => false | _ => true)
+  match runBody v1cfg Gen.C20.newSubV1.results body [("err", .nil), ("cg", .nil), ("name", .str name), ("c", c)] { dirs := dirs } 3000 with
+  | .ok (some [.strct fs, .nil], _, w) =>
+    .ok (pathsOf (recGet fs "all"), pathsOf (recGet fs "created"), (match recGet fs "existing" with | some (.bool b) => b | _ => false),
+         w.dirs.filter (fun d => !dirs.contains d))
+  | .ok _ => .error "shape"
+  | .error e => .error e
+
+/-- New then Destroy, both regenerated: the `rmdir <dir>` lines of Destroy -/
+def genNewThenDestroyV1 (ctrls : List String) (name : String) (dirs : List String) : Except String (List String) :=
+  match genNewSubV1 ctrls name dirs with
+  | .ok (allP, createdP, existing, _) =>
+    (match genDestroyV1 allP createdP existing with
+     | .ok l => .ok l
+     | .error e => .error e)
+  | .error e => .error e
+
+/-- every subset of a list -/
+def subsets : List String → List (List String)
+  | [] => [[]]
+  | x :: r => (subsets r).flatMap (fun s => [s, x :: s])
+
 /-! ### (c') creation of a v2 group by the regenerated New / Nest / newV2 -/
 
 def vext (name : String) (args : List Val) (env : Env) (w : DW) : Except String (Val × DW) :=
